@@ -33,6 +33,7 @@ CONSTANTS
   ExtraV = {%(extrav)s}
   Only1On = %(only1)s
   WithRemote = %(remote)s
+  Froms = {%(froms)s}
   Kinds = {%(kinds)s}
   ModOn = %(modon)s
   Lazy = %(lazy)s
@@ -53,11 +54,11 @@ def B(x):
 
 
 def cfg(n, maxr, nn, scopes, dmarcs=("off",), only1=False, devs=(), gen=False, lazy=True,
-        remote=True, maxdelay=2, tail=MC_TAIL, spec="Spec", kinds=("pipe",), modon=False, extrav=("rq",)):
+        remote=True, maxdelay=2, tail=MC_TAIL, spec="Spec", kinds=("pipe",), modon=False, extrav=("rq",), froms=("addr",)):
     return CFG % dict(spec=spec, n=n, maxr=maxr, nn=nn, scopes=scopes,
                       dmarcs=", ".join('"%s"' % d for d in dmarcs), only1=B(only1),
                       remote=B(remote), lazy=B(lazy), kinds=", ".join('"%s"' % x for x in kinds), modon=B(modon),
-                      extrav=", ".join('"%s"' % x for x in extrav),
+                      extrav=", ".join('"%s"' % x for x in extrav), froms=", ".join('"%s"' % x for x in froms),
                       devs=", ".join('"%s"' % d for d in devs), gen=B(gen), maxdelay=maxdelay,
                       tail=tail)
 
@@ -106,7 +107,8 @@ def norm_cfg(c):
             "dmarc": c.get("dmarc") if c.get("dmarc") in ("off", "quar") else "off",
             "kind": c.get("kind", "pipe"),
             "mod": "on" if c.get("mod") == "on" else "off",
-            "mfail": sorted(c.get("mfail") or [])}
+            "mfail": sorted(c.get("mfail") or []),
+            "from": "null" if c.get("from") == "null" else "addr"}
 
 
 def behaviours_from(r):
@@ -414,14 +416,15 @@ def run(ctx, replay):
     else:
         # ---- (B) behaviours out of TLC (jobs run next to the exhaustive runs) ----------
         sim = dict(n=4 if thorough else 3, maxr=3, nn=3 if thorough else 2, dmarcs=("off", "quar"), only1=True,
-                   devs=open_devs, lazy=False, remote=False, maxdelay=2, modon=True, extrav=("rq", "rqp"))
+                   devs=open_devs, lazy=False, remote=False, maxdelay=2, modon=True, extrav=("rq", "rqp"),
+                   froms=("addr", "null"))
         n_sim = 2000 if thorough else 260
         gens = [
             # small scopes, every behaviour (all completion orders within the delay bound):
             # one check anywhere, a failing recipient modifier in the destination blocks
             pool.submit(gen_job, ctx, "gen-s1", dict(n=1, maxr=2, nn=1, scopes=2, only1=True, devs=open_devs,
                                                      remote=False, maxdelay=1, modon=True,
-                                                     extrav=("rq", "rqp"))),
+                                                     extrav=("rq", "rqp"), froms=("addr", "null"))),
             # no shared checks / any placement
             pool.submit(gen_job, ctx, "gen-sim1", dict(sim, scopes=1), simulate=n_sim, depth=300),
             pool.submit(gen_job, ctx, "gen-sim4", dict(sim, scopes=4), simulate=n_sim, depth=300),
@@ -580,8 +583,8 @@ def run(ctx, replay):
         "recording targets that always succeed; the real remote target is exercised with an already flagged message "
         "(RCPT) and behind the pipeline over an in-memory next hop that accepts everything (body stage, both paths); "
         "a refusal by the remote target is a 5.7.z policy error with nothing handed to the next hop",
-        "after a per-recipient body that was refused for every recipient the driver aborts (it does not call Commit "
-        "as the LMTP endpoint does; that history is C03's)",
+        "after BodyNonAtomic the driver always calls Commit, as the LMTP endpoint and the queue do; after a refused "
+        "atomic Body it calls Abort",
         "verdicts are per stage (rcpt-stage verdicts optionally for the first recipient only), from {none, ignore, "
         "quarantine, reject} through the real FailAction.Apply plus the raw combined result Reject && Quarantine "
         "(Reason with or without an SMTP code) that a check such as check.milter returns itself: reject wins; headers "
